@@ -1698,6 +1698,21 @@ func (fg *FuncGen) depsChanged(deps []string, a, b *State) bool {
 	return false
 }
 
+// released: the term is a parameter the contract `releases` (a finaliser clears the object and
+// hands it to a pool: its invariant is not owed to anybody at return).
+func (fg *FuncGen) released(term string) bool {
+	if fg.ct == nil || len(fg.ct.Releases) == 0 {
+		return false
+	}
+	for _, p := range fg.fn.Params {
+		if hasProp(fg.ct.Releases, p.Name()) && fg.vals[p].T == term {
+			fg.note("%s: the object invariant of parameter %s is not required at return (`releases`: the object goes back to its pool)", funcDisplayName(fg.fn), p.Name())
+			return true
+		}
+	}
+	return false
+}
+
 // objInvObligations: at return, the invariant holds for every object of an
 // invariant-carrying type that this function allocated or wrote, and - when the function
 // changed anything the invariant depends on - for every such object it knows about.
@@ -1710,12 +1725,15 @@ func (fg *FuncGen) objInvObligations(st *State) {
 			continue
 		}
 		done[tv.T] = true
+		if fg.released(tv.T) {
+			continue
+		}
 		goal := implies(and(tv.cond, fmt.Sprintf("(not (= %s 0))", tv.T)), fg.invTerm(ct, tv.Typ, tv.T, st))
 		fg.oblige("objinv", ct.Key+" "+tv.what, goal, ct.Props, "invariant")
 	}
 	for _, k := range sortedKeys(fg.known) {
 		ko := fg.known[k]
-		if done[ko.T] {
+		if done[ko.T] || fg.released(ko.T) {
 			continue
 		}
 		ct, _ := fg.structInvFor(ko.Typ)
